@@ -271,9 +271,96 @@ def f_aretry(k, mt, unlisted, method, two, v):
         prog.reset_globals()
 
 
+def f_badelems(h, itk, blocks, b0, b1, b2, v):
+    """Elements on which the key / predicate fails, with different exception types (0 fine, 1 KeyError, 2 TypeError):
+    the helper raises what the built-in raises (the first bad element in input order decides)."""
+    hh, ik, bl = conc(h, 7), conc(itk, 3), concb(blocks)
+    bad = [conc(b0, 3), conc(b1, 3), conc(b2, 3)]
+    rec.clear_fail()
+    prog.reset_globals()
+    _B.cur[0] = None
+    _B.nflush[0] = 0
+    elems = [(i, v + i) for i in range(3)]
+
+    def check_elem(e):
+        if bad[e[0]] == 1:
+            raise KeyError(e[0])
+        if bad[e[0]] == 2:
+            raise TypeError(e[0])
+
+    def key_sync(e):
+        check_elem(e)
+        return e[1]
+
+    @A()
+    def key_async(e):
+        if bl:
+            yield _It(e[0])
+        check_elem(e)
+        return e[1]
+
+    def pred_sync(e):
+        check_elem(e)
+        return e[1] % 2 == 0
+
+    @A()
+    def pred_async(e):
+        if bl:
+            yield _It(e[0])
+        check_elem(e)
+        return e[1] % 2 == 0
+
+    def mk_iter():
+        return [list(elems), tuple(elems), iter(list(elems))][ik]
+
+    def run(thunk):
+        try:
+            return ("v", thunk())
+        except Exception as e:
+            prog.reraise_control(e)
+            return ("e", type(e).__name__)
+    name = HELPERS[hh]
+    try:
+        if name == "amap":
+            got, exp = run(lambda: amap(key_async, mk_iter())), run(lambda: list(map(key_sync, mk_iter())))
+        elif name == "afilter":
+            got, exp = run(lambda: afilter(pred_async, mk_iter())), run(lambda: list(filter(pred_sync, mk_iter())))
+        elif name == "afilterfalse":
+            got = run(lambda: afilterfalse(pred_async, mk_iter()))
+            exp = run(lambda: list(itertools.filterfalse(pred_sync, mk_iter())))
+        elif name == "asorted":
+            got, exp = run(lambda: asorted(mk_iter(), key=key_async)), run(lambda: sorted(mk_iter(), key=key_sync))
+        elif name == "amax":
+            got, exp = run(lambda: amax(mk_iter(), key=key_async)), run(lambda: max(mk_iter(), key=key_sync))
+        elif name == "amin":
+            got, exp = run(lambda: amin(mk_iter(), key=key_async)), run(lambda: min(mk_iter(), key=key_sync))
+        elif name == "asift":
+            got = run(lambda: asift(pred_async, mk_iter()))
+            exp = run(lambda: ([e for e in elems if pred_sync(e)], [e for e in elems if not pred_sync(e)]))
+        else:
+            return True
+        desc = "%s on 3 elements whose key/predicate outcome is %s (%s)" % (
+            name, [["fine", "KeyError", "TypeError"][b] for b in bad], "blocks on a batch" if bl else "immediate")
+        if got[0] != exp[0] or (got[0] == "e" and got[1] != exp[1]):
+            return rec.fail("%s: helper gave %r, built-in gives %r" % (desc, got, exp))
+        if got[0] == "v" and not same(got[1], exp[1]):
+            return rec.fail("%s: helper gave %r, built-in gives %r" % (desc, got, exp))
+        rec.wit("paths")
+        if got[0] == "e":
+            rec.wit("paths_raising")
+        rec.done(("c14be", hh, ik, bl, tuple(bad)), True)
+        return True
+    finally:
+        prog.reset_globals()
+
+
 def conds(tier):
     q = tier == "quick"
     out = []
+    out.append(Cond("badelems", f_badelems, [I("h", 0, 6), I("itk", 0, 2), B("blocks"), I("b0", 0, 2), I("b1", 0, 2),
+                                             I("b2", 0, 2), I("v")], pin=1, builds=("C", "P"), budget=100,
+                    family="elements on which the key/predicate raises, with different exception types: same "
+                           "exception type as the built-in", encodes=ENC))
     out.append(Cond("helpers", f_helper,
                     [I("h", 0, len(HELPERS) - 1), I("n", 0, 3 if q else 4), I("itk", 0, 2), I("form", 0, 1), B("unord"),
                      B("blocks"), B("rev"), I("m", 1, 2 if q else 3), I("x0"), I("x1"), I("x2"), I("x3")],
